@@ -228,14 +228,24 @@ class MirDB:
                 return ex2[0]
         return None
 
-    def closure_fn(self, agg_name):
-        """body fn for a closure / coroutine aggregate named '{closure@span}' / '{coroutine@span (#0)}'"""
+    def closure_fn(self, agg_name, creator=None):
+        """body fn for a closure / coroutine aggregate named '{closure@span}' / '{coroutine@span (#0)}'.
+        Closures written by a macro of another crate (tokio::select!) all carry the macro's span: those are told apart by
+        the function that created the closure value."""
         m = _span_re.search(agg_name)
         if not m:
             return None
         span = m.group(1).strip()
         c = self.closures_by_span.get(span)
         if c and len(c) == 1:
+            return c[0]
+        if c and creator:
+            own = [f for f in c if f.name.startswith(creator + '::{closure#')]
+            if len(own) == 1:
+                return own[0]
+            c = own or c
+        if c and len(set(f.hash for f in c)) == 1:
+            # expansions of one macro (e.g. compare_op!): same name, same span, same body -- any of them is the body
             return c[0]
         return None
 
